@@ -53,12 +53,15 @@ def toy_combos():
         if ver > (3, 0):
             out.append(('etm', ver, dict(bs=16, mds=20)))
     out.append(('etm', (3, 3), dict(bs=8, mds=48, mbs=128)))
+    out.append(('cbc', (3, 3), dict(bs=16, mds=48, mbs=128)))
+    out.append(('cbc', (3, 1), dict(bs=16, mds=32, mbs=64)))
     out.append(('aead-aes', (3, 3), dict(tag=16)))
     out.append(('aead-aes', (3, 3), dict(tag=8)))
     out.append(('aead-chacha', (3, 3), dict(tag=16)))
     out.append(('aead-chacha-draft', (3, 3), dict(tag=16)))
     out.append(('tls13', (3, 4), dict(tag=16, t13name='aes128gcm')))
     out.append(('tls13', (3, 4), dict(tag=16, t13name='chacha20-poly1305', pad=('blk', 16))))
+    out.append(('tls13', (3, 4), dict(tag=16, t13name='aes128gcm', plain_alert=False)))
     return out
 
 
@@ -163,6 +166,8 @@ def tls13_forgeries(rng, c, snap):
             if ty == 0:      # the last non-zero byte is then inside `content` (or nothing at all)
                 stripped = inner.rstrip(b'\x00')
                 want = (stripped[-1], stripped[:-1]) if stripped else 'unexpected'
+            if isinstance(want, tuple) and want[0] == 20:
+                want = 'unexpected'          # RFC 8446 section 5: a protected change_cipher_spec must be refused
             out.append(('inner-type-%d-pad-%d' % (ty, k), seal(inner), want))
     for k in (0, 1, 17, 300):
         out.append(('all-zero-%d' % k, seal(bytes(k)), 'unexpected'))
@@ -176,6 +181,12 @@ def tls13_forgeries(rng, c, snap):
         out.append(('outer-type-%d' % hty, w, (20, w[5:]) if hty == 20 else 'outer'))
     for hver in ((3, 1), (3, 4), (3, 2), (2, 3)):
         out.append(('outer-version-%d.%d' % hver, seal(content + bytes([23]), hver=hver), 'illegal'))
+    # unencrypted alert: only in the window before the handshake is done and before any protected record
+    alert = bytes([21, 3, 3, 0, 2, 1, 0])
+    window = c.get('plain_alert', True) and seq == 0
+    # outside the window the 2 bytes are taken for an AEAD record: shorter than the tag -> bad_record_mac
+    out.append(('plaintext-alert-%s-seq%d' % (c.get('plain_alert', True), min(seq, 1)), alert, (21, alert[5:]) if window else 'badmac'))
+    out.append(('plaintext-alert-3-bytes', bytes([21, 3, 3, 0, 3, 1, 0, 0]), 'badmac'))
     return out
 
 
@@ -208,6 +219,65 @@ def alt_paddings(rng, c, snap, rec):
         w = bytes([ty, ver[0], ver[1], len(ct) >> 8, len(ct) & 255]) + ct
         out.append(('alt-padding+%d' % extra, w, (ty, data) if legal else 'badmac'))
     return out
+
+
+def cbc_record(rng, c, snap, rec, p):
+    """The MtE CBC record a conforming peer produces for `rec` with padding length byte p."""
+    from c01_toys import ToyMac, ToyCBC
+    seq, cs = snap
+    ty, data = rec
+    ver, bs = tuple(c['ver']), c['bs']
+    hdr = seq.to_bytes(8, 'big') + bytes([ty]) + (b'' if ver == (3, 0) else bytes(ver))
+    ivb = rand_bytes(rng, bs) if ver >= (3, 2) else b''
+    mac = ToyMac(c['mac_key'], c['mds'], c['mbs'])
+    mac.update(hdr + bytes([len(data) >> 8, len(data) & 255]) + data)
+    inner = data + mac.digest()
+    assert (len(inner) + p + 1) % bs == 0
+    padb = (rand_bytes(rng, p) if ver == (3, 0) else bytes([p]) * p) + bytes([p])
+    ct = bytes(ToyCBC(c['enc_key'], bytes(cs)).encrypt(ivb + inner + padb))
+    return bytes([ty, ver[0], ver[1], len(ct) >> 8, len(ct) & 255]) + ct, len(ivb)
+
+
+def long_padding_samples(rng, c, snap, quick):
+    """Records padded to the maximum legal length and one block less, payload lengths swept so that the
+    decrypted length takes every residue modulo the hash block size; with targeted tamperings."""
+    bs, ds, mbs = c['bs'], c['mds'], c['mbs']
+    out = []
+    # multiples of the cipher block over one hash block give every residue of the decrypted length;
+    # the unaligned payloads change the padding length instead
+    Ls = sorted(set(list(range(0, mbs + bs, bs)) + list(range(3, 2 * mbs, 37 if quick else 1))))
+    for L in Ls:
+        data = rand_bytes(rng, L)
+        pmax = 255 - ((L + ds + 255 + 1) % bs)
+        for p in (pmax, pmax - bs):
+            w, ivl = cbc_record(rng, c, snap, (23, data), p)
+            n = len(w)
+            o = 5 + ivl                       # first byte of the (encrypted) data || mac || padding
+            muts = [('longpad-honest', w)]
+            sites = (('data-first', o), ('data-last', o + max(L - 1, 0)), ('mac-mid', o + L + ds // 2),
+                     ('pad-first', o + L + ds), ('last-block', n - 1))
+            for cls, pos in (sites[:3] if quick else sites):
+                if pos < n:
+                    m = bytearray(w)
+                    m[pos] ^= 1 << rng.randrange(8)
+                    muts.append(('longpad-flip-' + cls, bytes(m)))
+            body = w[5:]
+            k = len(body) - bs
+            muts.append(('longpad-truncate-block', w[:3] + bytes([k >> 8, k & 255]) + body[:k]))
+            if not quick:
+                muts.append(('longpad-drop-first-block', w[:3] + bytes([k >> 8, k & 255]) + body[bs:]))
+            out.append(((23, data), p, muts))
+    return out
+
+
+WANT_EXC = {'unexpected': 'TLSUnexpectedMessage', 'overflow': 'TLSRecordOverflow', 'outer': 'TLSUnexpectedMessage',
+            'illegal': 'TLSIllegalParameterException', 'badmac': 'TLSBadRecordMAC'}
+
+
+def forgery_ok(r, want):
+    if isinstance(want, tuple):
+        return r[0] == 0 and (r[1], r[2]) == want
+    return r[3] == WANT_EXC[want]
 
 
 def error_path_impl(c, wire_bytes_, seq_w=3):
@@ -285,12 +355,14 @@ LIVE_COMBOS = [
     ((3, 1), 'aes128', 'sha', False), ((3, 1), 'aes256', 'sha', True), ((3, 1), 'rc4', 'sha', False),
     ((3, 2), 'aes128', 'sha', False), ((3, 2), '3des', 'sha', True), ((3, 2), 'null', 'sha', False),
     ((3, 3), 'aes128', 'sha256', False), ((3, 3), 'aes128', 'sha256', True), ((3, 3), 'aes256', 'sha', True),
+    ((3, 3), 'aes256', 'sha384', False), ((3, 3), 'aes128', 'sha', False),
     ((3, 3), 'aes128gcm', 'aead', False), ((3, 3), 'aes256gcm', 'aead', False), ((3, 3), 'chacha20-poly1305', 'aead', False),
     ((3, 3), 'aes128ccm', 'aead', False), ((3, 3), 'aes256ccm_8', 'aead', False), ((3, 3), 'null', 'sha256', False),
     ((3, 3), 'rc4', 'sha', False),
     ((3, 4), 'aes128gcm', 'aead', False), ((3, 4), 'aes256gcm', 'aead', False), ((3, 4), 'chacha20-poly1305', 'aead', False),
     ((3, 4), 'aes128ccm', 'aead', False), ((3, 4), 'aes128ccm_8', 'aead', False),
 ]
+LIVE_KIND = {'aes128': 'cbc', 'aes256': 'cbc', '3des': 'cbc'}
 MSGS = [b'first message', b'second-message!', b'3rd', b'the fourth and last message']
 
 
@@ -303,8 +375,11 @@ def split_records(buf):
     return out
 
 
-def live_setup(ver, cipher, mac, etm, seed):
-    """Deterministic connection; the client's four messages are captured, not delivered."""
+def live_setup(ver, cipher, mac, etm, seed, msgs=None, longpad=None):
+    """Deterministic connection; the client's messages are captured, not delivered.
+    longpad = k: the client (the PEER of the endpoint under test) pads every CBC record to the maximum
+    legal length minus k blocks."""
+    msgs = MSGS if msgs is None else msgs
     import loop
     rnd = loop.DetRandom(seed).install()
     try:
@@ -327,7 +402,16 @@ def live_setup(ver, cipher, mac, etm, seed):
             return None
         held = bytearray()
         p.csock.tap = lambda name, chunk: (held.extend(chunk), b'')[1]
-        for m in MSGS:
+        if longpad is not None:
+            rl = p.client._recordLayer
+
+            def long_padding(data, rl=rl, k=longpad):
+                bs = rl.blockSize
+                pl = 255 - ((len(data) + 255 + 1) % bs) - k * bs
+                data += bytearray([pl] * (pl + 1))
+                return data
+            rl.addPadding = long_padding
+        for m in msgs:
             loop.drive([p.client.writeAsync(m)])
         p.csock.tap = None
         sheld = bytearray()
@@ -351,11 +435,16 @@ def live_attack(args):
     ver, cipher, mac, etm, seed, action = args
     import loop
     from tlslite import errors as E
-    st = live_setup(ver, cipher, mac, etm, seed)
+    msgs = MSGS
+    if action[0] == 'padflip':
+        msgs = [bytes((7 * i + 3) & 255 for i in range(action[1]))]
+        st = live_setup(ver, cipher, mac, etm, seed, msgs=msgs, longpad=action[2])
+    else:
+        st = live_setup(ver, cipher, mac, etm, seed)
     if st is None or st[0] == 'broken':
         return dict(args=args, skip=True)
     p, recs, srecs = st
-    beast = len(recs) > len(MSGS)          # 1/n-1 split: records are [1 byte, rest] per message
+    beast = len(recs) > len(msgs)          # 1/n-1 split: records are [1 byte, rest] per message
     # plaintext each client record carries, in order (the honest stream)
     kind, pos = action[0], action[1]
     stream = list(recs)
@@ -395,18 +484,30 @@ def live_attack(args):
         r[0] ^= 0x80
         n = ((r[0] & 0x7f) << 8) | r[1]
         feed = stream[:pos] + [bytes(r) + bytes(n)]
+    elif kind == 'padflip':                # long-padded record of the peer, one bit of its data flipped
+        idx = len(stream) - 1
+        r = bytearray(stream[idx])
+        bs = 8 if cipher == '3des' else 16
+        off = 5 + (bs if ver >= (3, 2) else 0)
+        nplain = len(msgs[0]) - (1 if beast else 0)
+        where = off if action[3] == 'first' else off + (max(nplain - 1, 0) // bs) * bs
+        if action[3] == 'honest':
+            feed = stream
+        else:
+            r[min(where, len(r) - 1)] ^= 0x10
+            feed = stream[:idx] + [bytes(r)]
     elif kind == 'honest':
         feed = stream
     else:
         raise ValueError(kind)
-    nprefix = len(feed) - 1 if kind != 'honest' else len(feed)
+    nprefix = len(feed) - 1 if kind != 'honest' and not (kind == 'padflip' and action[3] == 'honest') else len(feed)
     p.ssock.inbuf += b''.join(feed)
     n0 = len(p.ssock.sent_log)
     got = bytearray()
     outcome = None
-    honest_bytes = b''.join(MSGS)
+    honest_bytes = b''.join(msgs)
     # plaintext carried by the honest records before the forged one
-    want_before = sum(len(x) for x in plain_sizes(recs, beast)[:nprefix])
+    want_before = sum(len(x) for x in plain_sizes(recs, beast, msgs)[:nprefix])
     try:
         for _ in range(16):
             r = loop.drive([(x for x in p.server.readAsync(4096, 1))], max_steps=4000)[0]
@@ -419,9 +520,11 @@ def live_attack(args):
             got += r[1]
             if len(got) >= len(honest_bytes):
                 break
+            if not honest_bytes:
+                break
     except Exception as e:  # noqa
         outcome = e
-    res = dict(args=args, got=bytes(got), want_before=want_before, closed=p.server.closed,
+    res = dict(args=args, got=bytes(got), want_before=want_before, closed=p.server.closed, honest=honest_bytes,
                resumable=bool(p.server.session and p.server.session.resumable),
                exc=type(outcome).__name__ if isinstance(outcome, Exception) else outcome,
                desc=int(outcome.description) if isinstance(outcome, (E.TLSLocalAlert, E.TLSRemoteAlert)) else None,
@@ -438,9 +541,9 @@ def live_attack(args):
     return res
 
 
-def plain_sizes(recs, beast):
+def plain_sizes(recs, beast, msgs=None):
     out = []
-    for m in MSGS:
+    for m in (MSGS if msgs is None else msgs):
         if beast:
             out += [m[:1], m[1:]]
         else:
@@ -455,10 +558,10 @@ def live_oracle(res):
     """Returns a list of (key-suffix, text) violations of the property on this run."""
     ver, cipher, mac, etm, seed, action = res['args']
     kind = action[0]
-    honest = b''.join(MSGS)
+    honest = res.get('honest', b''.join(MSGS))
     v = []
     got, before = res['got'], res['want_before']
-    if kind == 'honest':
+    if kind == 'honest' or (kind == 'padflip' and action[3] == 'honest'):
         if got != honest:
             v.append(('honest-stream-broken', 'the unmodified stream was not delivered'))
         return v
@@ -468,7 +571,7 @@ def live_oracle(res):
     if len(got) > before:
         # the forged record was accepted: allowed only if it yielded exactly the honest next bytes
         # (malleable encodings of the same record: header version, CBC padding) -- got is a prefix of honest
-        if kind in ('replay', 'reorder', 'reflect', 'cross', 'inject', 'ssl2', 'truncate', 'extend'):
+        if kind in ('replay', 'reorder', 'reflect', 'cross', 'inject', 'ssl2', 'truncate', 'extend', 'padflip'):
             v.append(('accepted-not-next', '%s record was accepted and delivered %d bytes' % (kind, len(got) - before)))
         return v
     # nothing beyond the honest prefix was delivered: it must be a clean fatal rejection
@@ -495,6 +598,21 @@ def live_oracle(res):
     if res['resumable']:
         v.append(('still-resumable', 'session still resumable after the rejection'))
     return v
+
+
+def longpad_actions(quick, mac):
+    """(payload length, blocks below the maximum, where) for CBC MAC-then-encrypt peers that pad maximally"""
+    hb = 128 if mac == 'sha384' else 64
+    Ls = list(range(1, 2 * hb + 2, 17 if quick else 1))
+    out = []
+    for L in Ls:
+        for k in (0, 1):
+            out.append(('padflip', L, k, 'first'))
+            if not quick or L % 2:
+                out.append(('padflip', L, k, 'last'))
+        if L in (Ls[0], Ls[-1]):
+            out.append(('padflip', L, 0, 'honest'))
+    return out
 
 
 def live_actions(rng, nrec, lens, quick, t13):
@@ -594,21 +712,47 @@ def run(ctx):
         extra = []
         if mode == 'tls13':
             extra = tls13_forgeries(rng, c, snaps[1])
+            c0 = dict(c, seq=0)
+            for cls, w, want in tls13_forgeries(rng, c0, (0, [])):
+                if cls.startswith('plaintext-alert'):
+                    r, fs, fc = impl_recv_exc(c0, (0, []), w)
+                    ctx.count('keyed-forgery', 1, [(mode, ver, cls, r[0])])
+                    if not forgery_ok(r, want):
+                        found = True
+                        ctx.violation('plaintext-alert:%s' % cls, 'unencrypted alert: recvRecord gave %r, expected %r' % (r, want),
+                                      {'cfg': {k: (v.hex() if isinstance(v, bytes) else v) for k, v in c0.items()}, 'wire': w.hex()})
+                    lits.append(U.recv_case_at(c0, (0, []), [U.parse_wire(w)], [r[:3]], fs, fc, names=nm))
+                    meta.append((mode, ver, cls))
         elif mode in ('cbc', 'etm'):
             extra = alt_paddings(rng, c, snaps[1], recs[1])
         for cls, w, want in extra:
             r, fs, fc = impl_recv_exc(c, snaps[1], w)
             ctx.count('keyed-forgery', 1, [(mode, ver, cls, r[0])])
-            ok = (r[0] == 0 and (r[1], r[2]) == want) if isinstance(want, tuple) else \
-                 (r[3] == {'unexpected': 'TLSUnexpectedMessage', 'overflow': 'TLSRecordOverflow', 'outer': 'TLSUnexpectedMessage',
-                           'illegal': 'TLSIllegalParameterException', 'badmac': 'TLSBadRecordMAC'}[want])
-            if not ok:
+            if not forgery_ok(r, want):
                 found = True
                 ctx.violation('keyed-forgery:%s:%s:%s' % (mode, ver, cls.split('-pad')[0]),
                               'record made with the keys (%s): recvRecord gave %r, the RFC reading is %r' % (cls, r, want),
                               {'cfg': {k: (v.hex() if isinstance(v, bytes) else v) for k, v in c.items()}, 'wire': w.hex(), 'class': cls})
             lits.append(U.recv_case_at(c, snaps[1], [U.parse_wire(w)], [r[:3]], fs, fc, names=nm))
             meta.append((mode, ver, cls))
+        # --- CBC MtE: the sender pads as much as it may (TLS 1.0+)
+        if mode == 'cbc' and ver >= (3, 1):
+            for rec, p, muts in long_padding_samples(rng, c, snaps[1], quick):
+                for cls, mw in muts:
+                    r, fs, fc = impl_recv_exc(c, snaps[1], mw)
+                    ctx.count('long-padding', 1, [(mode, ver, c['bs'], c['mbs'], cls, (len(mw) - 5) % c['mbs'], p, r[0])])
+                    info = {'cfg': {k: (v.hex() if isinstance(v, bytes) else v) for k, v in c.items()},
+                            'snap': [snaps[1][0], list(snaps[1][1])], 'wire': mw.hex(), 'rec': [rec[0], rec[1].hex()],
+                            'class': cls, 'padding': p}
+                    if cls == 'longpad-honest':
+                        if r[0] != 0 or (r[1], r[2]) != rec:
+                            found = True
+                            ctx.violation('next-record-rejected:%s:%s:long-padding' % (mode, ver),
+                                          'a record with %d bytes of legal padding was not accepted' % p, info)
+                    else:
+                        found |= oracle_record(ctx, c, cls, rec, r, info)
+                    lits.append(U.recv_case_at(c, snaps[1], [U.parse_wire(mw)], [r[:3]], fs, fc, names=nm))
+                    meta.append((mode, ver, cls))
         # --- the error path through the real read(): one bad and one good record
         bad = bytearray(outs[0])
         bad[-1] ^= 1
@@ -654,6 +798,8 @@ def run(ctx):
                               {'args': [list(ver), ci, m, e, 17, ['honest', 0]], 'how': 'harness/props/C02.py live_setup(...)'})
                 continue
             combos_actions = live_actions(rng, len(lens), lens, quick, ver >= (3, 4))
+            if LIVE_KIND.get(ci) == 'cbc' and not e and ver >= (3, 1):
+                combos_actions += longpad_actions(quick, m)
             for a in combos_actions:
                 jobs.append((ver, ci, m, e, 17, a))
         results = pool.map(live_attack, jobs, chunksize=8)
@@ -684,9 +830,13 @@ def run(ctx):
 
     # ---------------- model vs implementation -------------------------------------------------------
     if res['model_ok']:
-        for name, ctype, fn, ls, pre in (('C02r', 'RecvCase', 'chk_recv', lits, U.PREAMBLE + '\n'.join(defs) + '\n'),
-                                         ('C02e', 'EffCase', 'chk_eff', eff_lits, EFFECT_PREAMBLE)):
-            bad, errs = vlib.coq_bad_indices(name, U.IMPORTS, ctype, fn, ls, shard=max(50, (len(ls) + 15) // 16), preamble=pre)
+        kinds = (('C02r', 'RecvCase', 'chk_recv', lits, U.PREAMBLE + '\n'.join(defs) + '\n'),
+                 ('C02e', 'EffCase', 'chk_eff', eff_lits, EFFECT_PREAMBLE))
+        from multiprocessing.pool import ThreadPool
+        with ThreadPool(2) as tp:
+            evals = tp.map(lambda k: vlib.coq_bad_indices(k[0], U.IMPORTS, k[1], k[2], k[3],
+                                                          shard=max(50, (len(k[3]) + 15) // 16), preamble=k[4]), kinds)
+        for (name, ctype, fn, ls, pre), (bad, errs) in zip(kinds, evals):
             ctx.count('model-vs-impl:' + fn, len(ls), [(fn, len(ls) - len(bad))])
             for e in errs:
                 tie_broken = 'case evaluation failed (%s): %s' % (fn, e[:300])
